@@ -257,10 +257,22 @@ func runTree(pats, probes []string) (res SL, elems []string, npat int) {
 	}
 	// rendering the tree (Elems, as Config() does) is a read: verdicts before and after it must coincide
 	before := probe()
-	elems = t.Elems()
+	elemsOf := func() (out []string, panicked bool) {
+		defer func() {
+			if e := recover(); e != nil {
+				panicked = true
+			}
+		}()
+		return t.Elems(), false
+	}
+	elems, crashed := elemsOf()
 	res = probe()
-	if str(before) != str(res) || strings.Join(elems, "\x00") != strings.Join(t.Elems(), "\x00") {
+	again, _ := elemsOf()
+	if str(before) != str(res) || strings.Join(elems, "\x00") != strings.Join(again, "\x00") {
 		res = append(res, Y("elems-changed-the-tree"))
+	}
+	if crashed {
+		res = append(res, Y("elems-panicked"))
 	}
 	return res, elems, npat
 }
